@@ -204,7 +204,7 @@ class Scan:
             return "none"
         if isinstance(e, ast.Name):
             if e.id in f.all_params():
-                if e.id in CLASS_PARAMS:
+                if e.id in CLASS_PARAMS or self.used_as_class(f, e.id):
                     return "classIdentity"
                 if e.id in ("field", "self", "the_field"):
                     return "fieldIdentity"
@@ -217,6 +217,22 @@ class Scan:
         if isinstance(e, ast.Attribute) and e.attr == "__class__":
             return "classIdentity"
         return "unknown"
+
+    def used_as_class(self, f, name):
+        """the function treats `name` as a class object: isinstance(name, type), issubclass(name, …),
+        name.__name__ / __mro__ / __bases__"""
+        for n in f.body_nodes():
+            if isinstance(n, ast.Attribute) and isinstance(n.value, ast.Name) and n.value.id == name \
+                    and n.attr in ("__name__", "__qualname__", "__mro__", "__bases__"):
+                return True
+            if isinstance(n, ast.Call) and isinstance(n.func, ast.Name) and n.args \
+                    and isinstance(n.args[0], ast.Name) and n.args[0].id == name:
+                if n.func.id == "issubclass":
+                    return True
+                if n.func.id == "isinstance" and len(n.args) == 2 and isinstance(n.args[1], ast.Name) \
+                        and n.args[1].id == "type":
+                    return True
+        return False
 
     def is_definition_time(self, f):
         return f.cls in self.metaclasses and f.name in ("__new__", "__prepare__", "__init__")
@@ -267,7 +283,12 @@ class Scan:
                             if ref:
                                 self._container_write(f, ref, self.classify_key(f, t.slice), after)
                         elif isinstance(t, ast.Attribute) and isinstance(t.value, ast.Name) \
-                                and t.value.id in self.classes and not t.value.id.endswith("Defaults"):
+                                and t.value.id in self.classes and t.value.id.endswith("Defaults"):
+                            # the global defaults are configuration only while nothing but explicit setters write them
+                            if not f.name.startswith("set_"):
+                                self.add(f.file, t.value.id + "." + t.attr, f.qual, "config", "unknown", after)
+                        elif isinstance(t, ast.Attribute) and isinstance(t.value, ast.Name) \
+                                and t.value.id in self.classes:
                             ref = t.value.id + "." + t.attr
                             if isinstance(n, ast.AugAssign):
                                 self.add(f.file, ref, f.qual, "counter", "none", after)
@@ -287,8 +308,9 @@ class Scan:
                             key = self.classify_key(f, n.args[0])
                         self._container_write(f, ref, key, after)
                 elif isinstance(n, ast.Global):
+                    # a module global rebound by an operation: shared by all classes, keyed by nothing we can see
                     for name in n.names:
-                        self.add(f.file, name, f.qual, "config", "globalConfig", after)
+                        self.add(f.file, name, f.qual, "config", "unknown", after)
 
     def _container_write(self, f, ref, key, after):
         if ref in self.module_objs:
@@ -434,6 +456,15 @@ class Scan:
                             self.add(f.file, "cls." + a, f.qual, "inPlaceClassAttr", "classIdentity", True)
                 if isinstance(n, (ast.Assign, ast.AugAssign)):
                     for t in (n.targets if isinstance(n, ast.Assign) else [n.target]):
+                        if isinstance(t, ast.Subscript):
+                            if isinstance(t.value, ast.Name):
+                                local_mut.add(t.value.id)
+                            else:
+                                a = self.attr_read(f, t.value, accessors)
+                                if a and a in def_attrs:
+                                    self.add(f.file, "cls." + a, f.qual, "inPlaceClassAttr", "classIdentity", True)
+                if isinstance(n, ast.Delete):
+                    for t in n.targets:
                         if isinstance(t, ast.Subscript):
                             if isinstance(t.value, ast.Name):
                                 local_mut.add(t.value.id)
